@@ -31,6 +31,24 @@ fn draw_both<C: Col, T: ImageDrawable<Color = C>>(t: &T, mode: i64, at: Point) -
     json!({"size": [size.width, size.height], "native": nat.calls, "dflt": default_calls(&dfl.calls)})
 }
 
+/// draw `t` through an `Image` on draining targets that REPORT a small window as their bounding box
+fn draw_windows<C: Col, T: ImageDrawable<Color = C>>(t: &T, mode: i64, at: Point) -> Value {
+    let size = t.size();
+    let image = if mode == 0 { Image::new(t, at) } else { Image::with_center(t, at) };
+    let bb = image.bounding_box();
+    let (w, h) = (bb.size.width as i32, bb.size.height as i32);
+    let big = Size::new(w as u32 + 2, h as u32 + 2);
+    let mut wins = vec![];
+    for win in [Rectangle::new(bb.top_left + Point::new(w / 2, h / 2), big), Rectangle::new(bb.top_left - Point::new(w / 2 + 2, h / 2 + 2), big),
+                Rectangle::new(bb.top_left + Point::new(w, 1), big), Rectangle::new(bb.top_left + Point::new(1, 1), Size::zero())] {
+        let mut nat = Drain::<C>::new();
+        nat.bbox = win;
+        image.draw(&mut nat).unwrap();
+        wins.push(json!({"box": rect_json(&win), "calls": nat.calls}));
+    }
+    json!({"size": [size.width, size.height], "wins": wins})
+}
+
 /// draw `t` through an `Image` on the draining target seen through `.clipped(clip)`: the adapter crops the
 /// colour stream with `Iterator::nth` (src/iterator/contiguous.rs), i.e. it SEEKS in the image's colour iterator
 fn draw_clipped<C: Col, T: ImageDrawable<Color = C>>(t: &T, mode: i64, at: Point, clip: &Rectangle) -> Value {
@@ -134,6 +152,21 @@ where
                 }
             }
             continue;
+        }
+        // every fifth draw also on window targets
+        if (areas.len() + at.x.unsigned_abs() as usize + at.y.unsigned_abs() as usize + w as usize) % 5 == 0 && areas.len() <= 2 {
+            let r = catch(|| match areas.len() {
+                0 => draw_windows(&raw, mode, at),
+                1 => draw_windows(&raw.sub_image(&areas[0]), mode, at),
+                _ => draw_windows(&raw.sub_image(&areas[0]).sub_image(&areas[1]), mode, at),
+            });
+            match r {
+                Ok(o) => rec.ev("wdraw", json!({"areas": dr["areas"], "mode": mode, "at": dr["at"], "size": o["size"], "wins": o["wins"]})),
+                Err(pn) => {
+                    rec.note("panicked_draws");
+                    rec.ev("panic", json!({"msg": pn.msg, "loc": pn.loc}));
+                }
+            }
         }
         let r = catch(|| match areas.len() {
             0 => draw_both(&raw, mode, at),
